@@ -12,7 +12,7 @@
 
 namespace {
 
-enum { OP_ACQ = 1, OP_CALLOC, OP_REALLOC, OP_REL, OP_SEND, OP_RECV, OP_CHECKPOINT, OP_YIELD, OP_REALLOC_NULL, OP_REL_BURST, OP_BULK };
+enum { OP_ACQ = 1, OP_CALLOC, OP_REALLOC, OP_REL, OP_SEND, OP_RECV, OP_CHECKPOINT, OP_YIELD, OP_REALLOC_NULL, OP_REL_BURST, OP_BULK, OP_REL_KEEP_ONE_PER_PAGE, OP_REL_PAGE };
 static const size_t PAGE = 4096;
 static const int MAXW = 4;
 
@@ -24,6 +24,7 @@ struct Block {
 };
 
 struct Worker {
+    size_t last_mass_release = 0;
     std::vector<Block> own;
     std::vector<Block> mailbox;
     bool finished = false;
@@ -186,7 +187,7 @@ void run_worker(Ctx &c, int idx) {
             case OP_BULK: {
                 // many live blocks of one class: more than 16 full pages per bin (the page list has to grow) and free lists
                 // beyond their initial capacity
-                size_t n = (size_t)op.a, sz = (size_t)op.b; if (!sz) sz = 1;
+                size_t n = op.a < 0 ? w.last_mass_release : (size_t)op.a, sz = (size_t)op.b; if (!sz) sz = 1; // a < 0: as many as the last mass release freed
                 for (size_t k = 0; k < n; k++) {
                     uint8_t *p = (uint8_t *)aws_mem_acquire(c.sba, sz);
                     check_new_block(c, p, sz, "acquire (bulk)");
@@ -195,6 +196,41 @@ void run_worker(Ctx &c, int idx) {
                 c.ops_done += n;
                 sim::probe("bulk_allocation_phase");
                 if (sim::live_pages().size() > 17) sim::probe("more_than_17_pages_live");
+                break;
+            }
+            case OP_REL_KEEP_ONE_PER_PAGE: {
+                // release every small block except one per page: the free lists grow while every page stays in use
+                std::map<uintptr_t, int> seen;
+                std::vector<Block> keep;
+                size_t freed = 0;
+                for (auto &b : w.own) {
+                    uintptr_t pg = (uintptr_t)b.p & ~(uintptr_t)(PAGE - 1);
+                    if (!b.cls || seen[pg]++ == 0) { keep.push_back(b); continue; }
+                    verify(c, b, "before release");
+                    c.live.erase((uintptr_t)b.p);
+                    aws_mem_release(c.sba, b.p);
+                    freed++;
+                }
+                w.own.swap(keep);
+                w.last_mass_release = freed;
+                c.ops_done += freed;
+                sim::probe("released_all_but_one_block_per_page");
+                break;
+            }
+            case OP_REL_PAGE: {
+                // release, back to back, every own block that lies in the same page as own block #a
+                if (w.own.empty()) break;
+                uintptr_t pg = (uintptr_t)w.own[(size_t)op.a % w.own.size()].p & ~(uintptr_t)(PAGE - 1);
+                std::vector<Block> keep;
+                for (auto &b : w.own) {
+                    if (!b.cls || ((uintptr_t)b.p & ~(uintptr_t)(PAGE - 1)) != pg) { keep.push_back(b); continue; }
+                    verify(c, b, "before release");
+                    c.live.erase((uintptr_t)b.p);
+                    aws_mem_release(c.sba, b.p);
+                    c.ops_done++;
+                }
+                w.own.swap(keep);
+                sim::probe("released_whole_page");
                 break;
             }
             case OP_REL_BURST: {
@@ -416,7 +452,18 @@ void gen(uint64_t seed, int tier, sim::Plan &p) {
         else { b.b = r.pick(std::vector<int64_t>{1, 20, 32}); b.a = r.range(2100, 2300); }
         p.ops.insert(p.ops.begin() + (long)r.below(p.ops.size() + 1), b);
         sim::Op cp; cp.thr = t; cp.kind = OP_CHECKPOINT; p.ops.push_back(cp);
-        sim::Op rb; rb.thr = t; rb.kind = OP_REL_BURST; rb.a = r.range(50, 400); p.ops.push_back(rb);
+        // page-structured phases after the bulk: thin every page out, refill, empty whole pages, bursts
+        int phases = (int)r.range(2, 6);
+        for (int ph = 0; ph < phases; ph++) {
+            sim::Op o; o.thr = t;
+            uint64_t w = r.below(10);
+            if (w < 3) { o.kind = OP_REL_KEEP_ONE_PER_PAGE; }
+            else if (w < 5) { o.kind = OP_BULK; o.a = -1; o.b = b.b; }
+            else if (w < 8) { o.kind = OP_REL_PAGE; o.a = r.range(0, 5000); }
+            else { o.kind = OP_REL_BURST; o.a = r.range(50, 400); }
+            p.ops.push_back(o);
+            if (r.chance(0.3)) { sim::Op c2; c2.thr = t; c2.kind = OP_CHECKPOINT; p.ops.push_back(c2); }
+        }
         sim::Op cp2; cp2.thr = t; cp2.kind = OP_CHECKPOINT; p.ops.push_back(cp2);
         p.cfg["alloc_yield"] = 0;
     }
@@ -437,7 +484,9 @@ std::string op_text(const sim::Op &op) {
         case OP_CHECKPOINT: snprintf(b, sizeof b, "T%d: checkpoint (quiescent accounting check when all threads arrive)", op.thr); break;
         case OP_YIELD: snprintf(b, sizeof b, "T%d: yield", op.thr); break;
         case OP_REL_BURST: snprintf(b, sizeof b, "T%d: release the %lld oldest own blocks in a row", op.thr, (long long)op.a); break;
-        case OP_BULK: snprintf(b, sizeof b, "T%d: acquire %lld blocks of %lld bytes in a row and keep them", op.thr, (long long)op.a, (long long)op.b); break;
+        case OP_BULK: snprintf(b, sizeof b, op.a < 0 ? "T%d: acquire as many blocks as the last mass release freed (%lld) of %lld bytes" : "T%d: acquire %lld blocks of %lld bytes in a row and keep them", op.thr, (long long)op.a, (long long)op.b); break;
+        case OP_REL_KEEP_ONE_PER_PAGE: snprintf(b, sizeof b, "T%d: release every own small block except one per page", op.thr); break;
+        case OP_REL_PAGE: snprintf(b, sizeof b, "T%d: release, back to back, every own block in the page of own block #%lld mod n", op.thr, (long long)op.a); break;
         default: snprintf(b, sizeof b, "?");
     }
     return b;
